@@ -37,6 +37,7 @@ type Ctx struct {
 // A RuleSet evaluates all rules of one property on one loaded configuration.
 type RuleSet struct {
 	Property    string
+	Technique   string
 	Explanation string
 	Assumptions []string
 	NotCovered  []string
